@@ -23,6 +23,7 @@ type c15ipCase struct {
 	Allowed []string `json:"allowed"`
 	Method  string   `json:"method"`
 	Headers []string `json:"headers,omitempty"` // caller-supplied request metadata, "key=value"
+	WithNS  bool     `json:"with_ns,omitempty"` // the policy also lists allowed namespaces; the request names only allowed ones
 }
 
 // request metadata the proxy gives a meaning to somewhere; a remote caller can set any of it
@@ -38,7 +39,11 @@ func c15ipRun(c c15ipCase) error {
 	if !ok {
 		return fmt.Errorf("HARNESS: unknown method")
 	}
-	acl := NewAccessControlInterceptor(vfNoopLogger(), c.Allowed, nil)
+	var nsList []string
+	if c.WithNS {
+		nsList = []string{"allowed-ns"}
+	}
+	acl := NewAccessControlInterceptor(vfNoopLogger(), c.Allowed, nsList)
 	called := 0
 	var err error
 	ctx := context.Background()
@@ -55,7 +60,11 @@ func c15ipRun(c c15ipCase) error {
 		err = acl.StreamIntercept(nil, &vfFakeServerStream{ctx: ctx}, &grpc.StreamServerInfo{FullMethod: m.FullMethod, IsClientStream: true, IsServerStream: true},
 			func(any, grpc.ServerStream) error { called++; return nil })
 	} else {
-		_, err = acl.Intercept(ctx, vfshared.NewMessage(m.In), &grpc.UnaryServerInfo{FullMethod: m.FullMethod},
+		req := vfshared.NewMessage(m.In)
+		if c.WithNS {
+			vfshared.FillEmptyNamespaces(req.ProtoReflect(), "allowed-ns")
+		}
+		_, err = acl.Intercept(ctx, req, &grpc.UnaryServerInfo{FullMethod: m.FullMethod},
 			func(context.Context, any) (any, error) { called++; return vfshared.NewMessage(m.Out), nil })
 	}
 	in := false
@@ -70,6 +79,9 @@ func c15ipRun(c c15ipCase) error {
 			return fmt.Errorf("allow-list %v, request headers %v: %s must be refused (err=%v, handler calls=%d)", c.Allowed, c.Headers, m.Name, err, called)
 		}
 		return nil
+	}
+	if c.WithNS {
+		return nil // the namespace list has its own verdicts (C16): only the method denial is asserted in this variant
 	}
 	if err != nil || called != 1 {
 		return fmt.Errorf("allow-list %v: %s must be forwarded (err=%v, handler calls=%d)", c.Allowed, m.Name, err, called)
@@ -111,7 +123,16 @@ func TestVF_C15_InProcess(t *testing.T) {
 	}
 	for _, l := range lists {
 		for _, m := range vfshared.Methods() {
-			for _, hs := range c15HeaderSets {
+			for hi, hs := range c15HeaderSets {
+				if hi == 0 { // also with a namespace allow-list next to the method list
+					cn := c15ipCase{Allowed: l, Method: m.FullMethod, WithNS: true}
+					if err := c15ipRun(cn); err != nil {
+						p := vfshared.WriteReplay("C15", part, cn)
+						st.Violation(p, err.Error())
+						t.Fatalf("C15 violated: %v (replay %s)", err, p)
+					}
+					st.Case(vfshared.Fingerprint(cn), m.Service == "admin" && len(l) == 1)
+				}
 				c := c15ipCase{Allowed: l, Method: m.FullMethod, Headers: hs}
 				if err := c15ipRun(c); err != nil {
 					p := vfshared.WriteReplay("C15", part, c)
